@@ -570,6 +570,8 @@ func ruleE4(c *Ctx) {
 			key := funcKey(fn) + "/store printedMatches"
 			if monotoneFlagValue(st.Val, fa) {
 				r.Discharge("E4", key, c.P.pos(st.Pos()), "flag is only ever raised (`old || x` or true)")
+			} else if storeOnlyWhenFlagDown(st, fa) {
+				r.Discharge("E4", key, c.P.pos(st.Pos()), "the store runs only when the flag was tested false (`if !old { old = x }`), so it is never lowered")
 			} else {
 				r.Finding("E4", key, c.P.pos(st.Pos()), "printedMatches can be lowered by a later result: -e reports failure although an earlier result was truthy")
 			}
@@ -578,6 +580,45 @@ func ruleE4(c *Ctx) {
 	if n == 0 {
 		r.Fatal("anchor moved: no store to printedMatches")
 	}
+}
+
+// storeOnlyWhenFlagDown: the store is dominated by a test of the same field
+// having been false, and no other store to the field lies between that test and it.
+func storeOnlyWhenFlagDown(st *ssa.Store, fa *ssa.FieldAddr) bool {
+	guarded := false
+	var testBlk *ssa.BasicBlock
+	dominatingConds(st.Block(), func(cond ssa.Value, taken bool, at *ssa.BasicBlock) {
+		v := cond
+		if u, ok := v.(*ssa.UnOp); ok && u.Op == token.NOT {
+			v, taken = u.X, !taken
+		}
+		if u, ok := v.(*ssa.UnOp); ok && u.Op == token.MUL && !taken {
+			if fa2, ok := u.X.(*ssa.FieldAddr); ok && fa2.Field == fa.Field && sameLenBase(fa2.X, fa.X) {
+				guarded = true
+				testBlk = at
+			}
+		}
+	})
+	if !guarded {
+		return false
+	}
+	// any other store to the field (or call that may store it) in a block dominated by the test and reaching the store
+	for _, b := range st.Parent().Blocks {
+		if !testBlk.Dominates(b) || !reaches(b, st.Block()) {
+			continue
+		}
+		for _, ins := range b.Instrs {
+			if ins == ssa.Instruction(st) {
+				break
+			}
+			if o, ok := ins.(*ssa.Store); ok {
+				if fo, ok := o.Addr.(*ssa.FieldAddr); ok && fo.Field == fa.Field && b != testBlk {
+					return false
+				}
+			}
+		}
+	}
+	return true
 }
 
 // monotoneFlagValue: v is `true`, or a phi one edge of which is `true` arriving
